@@ -94,13 +94,10 @@ def mQstring : List Char → Nat
 /-- `{token}` -/
 def mToken (cs : List Char) : Nat := (cs.takeWhile fun c => !isSpecial c).length
 
-/-- `\/\/.*\n` -/
+/-- `\/\/.*`: a line comment runs to the end of the line or of the input (repaired scanner; the
+newline itself is whitespace) -/
 def mLineComment : List Char → Nat
-  | '/' :: '/' :: r =>
-    let body := r.takeWhile fun c => c != '\n'
-    match r.drop body.length with
-    | '\n' :: _ => body.length + 3
-    | _ => 0
+  | '/' :: '/' :: r => (r.takeWhile fun c => c != '\n').length + 2
   | _ => 0
 
 def digitsVal (ds : List Char) : Nat := ds.foldl (fun acc c => 10 * acc + (c.toNat - '0'.toNat)) 0
@@ -643,5 +640,39 @@ def convRules (gname : List Char) : List TRule → Names → Grammar × Names
 
 /-- the surface grammar of a parsed text, with the tables of rule names and token spellings -/
 def resolve (tg : TGrammar) : Grammar × Names := convRules tg.name tg.rules {}
+
+/-! ## from a surface grammar with numbered names to a text-level tree (conventional spellings) -/
+
+/-- a decimal literal for a rational with a power of ten as denominator (`none` otherwise) -/
+def decOfRat (q : Rat) : Option Dec :=
+  (List.range 24).findSome? fun k =>
+    let x := q * ((10 ^ k : Nat) : Rat)
+    if x.den = 1 then some ⟨x.num.toNat, k⟩ else none
+
+def wordSpelling (n : Nat) : List Char := 'w' :: natDigits n
+def ruleSpelling (n : Nat) : List Char := '<' :: 'r' :: (natDigits n ++ ['>'])
+
+mutual
+  def textE : Exp → TExp
+    | .tok w => .tok (wordSpelling w)
+    | .ref r => .rule (ruleSpelling r)
+    | .null => .rule "<NULL>".toList
+    | .void => .rule "<VOID>".toList
+    | .group a => .group (textA a)
+    | .opt a => .opt (textA a)
+    | .star e => .star (textE e)
+    | .plus e => .plus (textE e)
+  def textS : Seq → TSeq
+    | .one wt tags e => .one (if wt = 1 then none else decOfRat wt) (List.replicate tags "{t}".toList) (textE e)
+    | .cons wt tags e s =>
+      .cons (if wt = 1 then none else decOfRat wt) (List.replicate tags "{t}".toList) (textE e) (textS s)
+  def textA : Alts → TAlts
+    | .one s => .one (textS s)
+    | .cons s a => .cons (textS s) (textA a)
+end
+
+def textG (g : Grammar) : TGrammar :=
+  { headerToks := ["V1.0".toList], name := "g".toList, imports := [],
+    rules := g.map fun r => { name := ruleSpelling r.name, pub := r.pub, body := textA r.body } }
 
 end SSVerif.JsgfText
